@@ -1,5 +1,7 @@
 """C10: a PBE solver returns the first enumerated program consistent with all
-examples.  Generator side (no import of synth)."""
+examples.  Generator side (no import of synth).  Kinds: tasks / zero (naive and
+cut-off solvers, model entry 1), restart / restart_real (RestartPBESolver
+around them, model entry 2)."""
 from lib import semantics as S
 from lib import progs as P
 
@@ -15,7 +17,25 @@ RULE = ("tasks: ONE evaluator and ONE solver object (naive or cut-off) drive 1-4
         "next()/send(truthy|falsy) steps; random skip set, cache on or off.  Observed: per step the index of the "
         "yielded program / StopIteration / escaping exception class, and get_stats('programs') after each task.  "
         "non-trivial = some task yields a program of index >= 1 and some proposal is rejected and followed by "
-        "another step.  zero: naive solver on a task without examples.")
+        "another step.  zero: naive solver on a task without examples.  "
+        "restart: ONE RestartPBESolver (naive or cut-off sub-solver, uniform_prior 0.05/0.5/0.001) drives 1-2 tasks; "
+        "the enumerator is a script of 1-6 enumerations of 0-16 random constant-free programs of depth <= 4 "
+        "(enumeration i+1 is produced by the enumerator returned by the i-th clone(); the target is hidden anywhere, "
+        "often FIRST in a later enumeration; a clone() past the script gives an empty enumeration); every scripted "
+        "enumerator carries a real ProbDetGrammar (uniform over CFG.depth_constraint of the 33-primitive DSL, "
+        "min_variable_depth 0) so that _restart_ really re-weights it; restart_criterion is "
+        "len(_data) - _last_size > k (k 0..4), _programs % m == 0 (m 1..6) or len(_data) >= m (m 0..5); 0-5 "
+        "examples; script of 1-12 next()/send() steps, mostly rejections.  Observed per task: the events (yield = "
+        "rank of the program among the drawn ones / StopIteration / exception class), get_stats('programs'), "
+        "get_stats('restarts'), the programs drawn from the successive generators, the programs handed to the "
+        "sub-solver's _test_, the number of drawn programs at each clone(), solver._data (program rank, score), "
+        "and that every grammar given to clone() has the rules of the initial one with normalised probabilities.  "
+        "non-trivial = a restart happened and a program drawn after it is yielded.  "
+        "restart_real: same solver and observables with the real heap search enumerator "
+        "(enumerate_prob_grammar on a uniform depth 2-3 grammar over 4-7 integer primitives, its clone() is the real "
+        "one) behind a logging wrapper that caps generator i at 3-60 programs and produces nothing after the 6th; one "
+        "task, 1-4 examples, 1-10 steps; the enumerations actually produced are recorded and the extracted model "
+        "replays them (run inside agree()).")
 ASSUMPTIONS = [
     "the wall clock never fires (timeout 1e9 s); the timeout branch is modelled but not exercised",
     "tasks are solved one after the other (two generators of one solver object are never interleaved); the first "
@@ -25,7 +45,16 @@ ASSUMPTIONS = [
     "the evaluator is the one of property C11 (cache state irrelevant by C11_history_independent; "
     "C10_cache_irrelevant); skip set and use_cache fixed for the life of the evaluator",
     "expected outputs have the type of the programs (result == output is Python equality, modelled by value_pyeq)",
-    "RestartPBESolver is not modelled (only the _test_ it borrows from its sub-solver is)",
+    "RestartPBESolver: the re-weighting done by _restart_ (reduce_derivations, uniform prior, normalise) is outside "
+    "the model: only its effect on the solver object (_last_size) is modelled, and the grammar given to clone() is "
+    "only checked to be normalised over the same rules; the enumerations of the cloned enumerators are inputs "
+    "(scripted, or recorded from heap search); scripted programs belong to the enumerator's grammar and "
+    "uniform_prior > 0 (otherwise _restart_ itself raises); the restart criterion is a function of the solver "
+    "object only (three shapes exercised); one solver object per case and no reset_stats() between its tasks "
+    "('programs' is then the count of the last closed task, 'restarts' accumulates: modelled as the code does)",
+    "RestartPBESolver on an exhausted enumeration: the model follows proposed repair C10b-1 (the generator ends "
+    "with StopIteration like the plain solvers); the unrepaired loop (RuntimeError) is kept as a pinned model and "
+    "recognised as known finding c10_restart_exhausted_runtimeerror",
 ]
 
 ALL_PRIMS = sorted(S.PRIMS)
@@ -33,6 +62,8 @@ VAR_TYPES = [[S.INT], [S.INT, S.INT], [S.LIST(S.INT)], [S.LIST(S.INT), S.INT], [
 OUT_TYPES = [S.INT, S.INT, S.INT, S.BOOL, S.LIST(S.INT), S.OPTINT]
 TRUTHY = (1, 4, 7)
 FINDING = "c10_naive_zero_examples"
+FINDING_RESTART = "c10_restart_exhausted_runtimeerror"
+E_RUNTIME = 100
 
 
 # a small evaluator over wire programs, used ONLY to pick expected outputs that
@@ -148,8 +179,70 @@ def gen_case(rng, zero=False):
     return {"kind": "tasks", "data": [kind, use_cache, skip, S.ARROW(*var_types, out_type), tasks]}
 
 
+def gen_restart_task(rng, var_types, inputs, out_type, pool):
+    n_ex = rng.choice([0, 1, 1, 2, 2, 3, 3, 4, 5])
+    target = rng.choice(pool)
+    satisfiable = rng.random() < 0.85
+    examples = []
+    for _ in range(n_ex):
+        inp = rng.choice(inputs)
+        if satisfiable and rng.random() < 0.92:
+            out = target_output(rng, target, inp, out_type)
+        else:
+            out = P.gen_value(rng, out_type)
+        examples.append([inp, out])
+    n_streams = rng.choice([1, 2, 2, 3, 3, 4, 5])
+    streams = [[rng.choice(pool) for _ in range(rng.choice([0, 1, 2, 3, 4, 6, 8, 12, 16]))] for _ in range(n_streams)]
+    if not streams[0] and rng.random() < 0.8:
+        streams[0] = [rng.choice(pool)]
+    if satisfiable:
+        for st in streams:
+            if st and rng.random() < 0.5:
+                st[rng.randrange(len(st))] = target
+        for st in streams[1:]:
+            # the most probable program of a re-weighted enumeration is typically a solution
+            if st and rng.random() < 0.6:
+                st[0] = target
+    if rng.random() < 0.3:
+        streams.append([])
+    answers = [rng.choice([0, 0, 0, 3])]
+    for _ in range(rng.choice([0, 1, 2, 3, 4, 5, 7, 11])):
+        if rng.random() < 0.12:
+            answers.append(rng.choice([1, 1, 4, 7]))
+        else:
+            answers.append(rng.choice([0, 0, 0, 2, 2, 3, 5, 6]))
+    return [examples, streams, answers]
+
+
+def gen_restart_case(rng):
+    var_types = rng.choice(VAR_TYPES)
+    out_type = rng.choice(OUT_TYPES)
+    inputs = []
+    for _ in range(rng.randint(1, 4)):
+        inp = [P.gen_value(rng, t) for t in var_types]
+        if inp not in inputs:
+            inputs.append(inp)
+    pool = []
+    for _ in range(rng.randint(4, 20)):
+        # no constants: the scripted programs must be derivable in CFG.depth_constraint of the DSL
+        p = P.gen_prog(rng, out_type, rng.choice([1, 2, 2, 3, 3, 4]), ALL_PRIMS, var_types, const_p=0)
+        if p is not None:
+            pool.append(p)
+    if not pool:
+        return None
+    kind = rng.randint(0, 1)
+    skip = sorted(rng.sample([0, 1, 2, 3], rng.choice([0, 2, 3, 4, 4, 4, 4])))
+    use_cache = 1 if rng.random() < 0.8 else 0
+    c = rng.choice([0, 0, 0, 1, 2])
+    crit = [c, rng.choice([0, 0, 1, 1, 2, 3, 4]) if c == 0 else rng.randint(1, 6) if c == 1 else rng.randint(0, 5)]
+    tasks = [gen_restart_task(rng, var_types, inputs, out_type, pool) for _ in range(rng.choice([1, 1, 1, 2]))]
+    return {"kind": "restart",
+            "data": [kind, use_cache, skip, S.ARROW(*var_types, out_type), crit, rng.randrange(3), tasks]}
+
+
 def gen(rng, tier):
     n_tasks, n_zero = (320, 4) if tier == "quick" else (5000, 40)
+    n_restart, n_real = (260, 40) if tier == "quick" else (4000, 400)
     cases = []
     for _ in range(n_zero):
         c = gen_case(rng, zero=True)
@@ -161,23 +254,343 @@ def gen(rng, tier):
             if rng.random() < 0.2:
                 c["decoy"] = 1
             cases.append(c)
+    # restart cases last (and from a generator of their own) so that the cases above are those of earlier versions
+    rrng = __import__("random").Random(rng.getrandbits(64))
+    for _ in range(n_restart):
+        c = gen_restart_case(rrng)
+        if c is not None:
+            cases.append(c)
+    for _ in range(n_real):
+        cases.append(gen_real_case(rrng))
     return cases
 
 
+REAL_INT_PRIMS = [0, 1, 2, 3, 4, 5, 6, 7, 20, 21, 27]
+REAL_LIST_PRIMS = [15, 17, 18]
+
+
+def gen_real_case(rng):
+    """RestartPBESolver on the real heap search enumerator: small grammar, each
+    generator capped (a finite enumerator), one task."""
+    var_types = rng.choice([[S.INT], [S.INT], [S.INT, S.INT], [S.LIST(S.INT)]])
+    cands = REAL_INT_PRIMS + (REAL_LIST_PRIMS if var_types == [S.LIST(S.INT)] else [])
+    while True:
+        prims = sorted(rng.sample(cands, rng.randint(4, 7)))
+        # a leaf and a function at least
+        if (any(S.PRIMS[n][1] == 0 for n in prims) or var_types != [S.LIST(S.INT)]) and \
+                any(S.PRIMS[n][1] > 0 for n in prims):
+            break
+    depth = rng.choice([2, 3, 3])
+    target = None
+    for _ in range(20):
+        target = P.gen_prog(rng, S.INT, depth, prims, var_types, const_p=0)
+        if target is not None:
+            break
+    inputs = [[P.gen_value(rng, t) for t in var_types] for _ in range(rng.randint(1, 3))]
+    examples = []
+    for _ in range(rng.choice([1, 2, 2, 3, 4])):
+        inp = rng.choice(inputs)
+        if target is not None and rng.random() < 0.93:
+            out = target_output(rng, target, inp, S.INT)
+        else:
+            out = P.gen_value(rng, S.INT)
+        examples.append([inp, out])
+    kind = rng.randint(0, 1)
+    skip = sorted(rng.sample([0, 1, 2, 3], rng.choice([2, 3, 4, 4, 4])))
+    c = rng.choice([0, 0, 0, 1, 2])
+    crit = [c, rng.choice([0, 0, 1, 1, 2, 3]) if c == 0 else rng.randint(2, 9) if c == 1 else rng.randint(1, 6)]
+    caps = [rng.choice([3, 10, 20, 40, 60]) for _ in range(6)]
+    answers = [rng.choice([0, 0, 0, 3])]
+    for _ in range(rng.choice([0, 1, 2, 3, 4, 5, 6, 9])):
+        if rng.random() < 0.12:
+            answers.append(rng.choice([1, 1, 4, 7]))
+        else:
+            answers.append(rng.choice([0, 0, 0, 2, 2, 3, 5, 6]))
+    return {"kind": "restart_real",
+            "data": [kind, 1 if rng.random() < 0.8 else 0, skip, S.ARROW(*var_types, S.INT), crit, rng.randrange(3),
+                     prims, depth, caps, [examples, answers]]}
+
+
+# ---- restart kinds: model side -------------------------------------------------
+RESTART_KINDS = ("restart", "restart_real")
+_REAL_CACHE = {}
+
+
+def _case_key(case):
+    return __import__("json").dumps(case, sort_keys=True)
+
+
+def restart_model_obs(raw):
+    def per_task(r):
+        events, programs, restarts, drawn, tested, cuts, data = r
+        return {"events": events, "programs": programs, "restarts": restarts, "drawn": drawn, "tested": tested,
+                "cuts": cuts, "data": data}
+    return {"spec": [per_task(r) for r in raw[0]], "pinned": [per_task(r) for r in raw[1]]}
+
+
+def restart_normalise_impl(streams_by_task, impl_obs, coords=True):
+    """Implementation observables in the vocabulary of the model: drawn/tested
+    coordinates (enumeration, position) become the scripted programs.  None when
+    the observable is not a list of per-task results (crash, hang)."""
+    if not isinstance(impl_obs, list) or len(impl_obs) != len(streams_by_task):
+        return None
+    out = []
+    for streams, r in zip(streams_by_task, impl_obs):
+        events, programs, restarts, drawn, tested, cuts, data, pcfgs_ok = r[:8]
+        if not coords:
+            # the runner already reports programs (restart_real)
+            out.append({"events": events, "programs": programs, "restarts": restarts, "drawn": drawn,
+                        "tested": tested, "cuts": cuts, "data": data, "pcfgs_ok": bool(pcfgs_ok), "walk_ok": True})
+            continue
+
+        def lookup(c):
+            i, j = c
+            return streams[i][j] if 0 <= i < len(streams) and 0 <= j < len(streams[i]) else ["?", i, j]
+        # the draws must walk through each enumeration from its first program on, enumerations in order
+        walk_ok = True
+        seen = {}
+        last = -1
+        for i, j in drawn:
+            if j != seen.get(i, 0) or i < last:
+                walk_ok = False
+            seen[i] = j + 1
+            last = i
+        out.append({"events": events, "programs": programs, "restarts": restarts,
+                    "drawn": [lookup(c) for c in drawn], "tested": [lookup(c) for c in tested], "cuts": cuts,
+                    "data": data, "pcfgs_ok": bool(pcfgs_ok), "walk_ok": walk_ok})
+    return out
+
+
+def restart_same(impl_norm, model_tasks):
+    if impl_norm is None or len(impl_norm) != len(model_tasks):
+        return False
+    for io, mo in zip(impl_norm, model_tasks):
+        for k in ("events", "programs", "restarts", "drawn", "tested", "cuts"):
+            if io[k] != mo[k]:
+                return False
+        if not io["pcfgs_ok"] or not io["walk_ok"]:
+            return False
+        if len(io["data"]) != len(mo["data"]):
+            return False
+        for (ki, sc), (km, num, den) in zip(io["data"], mo["data"]):
+            # the score is the float num / den computed by the same division
+            if ki != km or den == 0 or sc != num / den:
+                return False
+    return True
+
+
+def real_model(case, impl_obs):
+    """restart_real: the model replays the enumerations the implementation's
+    enumerators actually produced (memoised: agree, classify, nontrivial and
+    describe all need it)."""
+    key = (_case_key(case), _case_key(impl_obs))
+    if key not in _REAL_CACHE:
+        kind, use_cache, skip, request, crit, prior, prims, depth, caps, (examples, answers) = case["data"]
+        mo = None
+        if isinstance(impl_obs, dict) and isinstance(impl_obs.get("streams"), list):
+            from lib import core
+            raw = core.run_model(ID, [(2, [kind, skip, crit, [[examples, impl_obs["streams"], answers]]])])[0]
+            if raw != [-1] and raw != [-2]:
+                mo = restart_model_obs(raw)
+                mo["streams"] = impl_obs["streams"]
+        _REAL_CACHE[key] = mo
+        _REAL_CACHE[("last", _case_key(case))] = mo
+    return _REAL_CACHE[key]
+
+
+def restart_streams(case, impl_obs=None):
+    if case["kind"] == "restart":
+        return [t[1] for t in case["data"][6]]
+    return [impl_obs["streams"]] if isinstance(impl_obs, dict) and "streams" in impl_obs else None
+
+
 def to_model(case):
+    if case["kind"] == "restart":
+        kind, use_cache, skip, request, crit, prior, tasks = case["data"]
+        return (2, [kind, skip, crit, tasks])
+    if case["kind"] == "restart_real":
+        kind, use_cache, skip = case["data"][:3]
+        return (2, [kind, skip, case["data"][4], []])     # placeholder: the model runs in agree()
+    return _plain_to_model(case)
+
+
+def model_obs(case, raw):
+    if case["kind"] in RESTART_KINDS:
+        return restart_model_obs(raw)
+    return _plain_model_obs(case, raw)
+
+
+def _restart_compare(case, impl_obs, model_obs, which):
+    if case["kind"] == "restart":
+        norm = restart_normalise_impl(restart_streams(case), impl_obs)
+        return restart_same(norm, model_obs[which])
+    mo = real_model(case, impl_obs)
+    if mo is None:
+        return False
+    norm = restart_normalise_impl([impl_obs["streams"]], impl_obs.get("tasks"), coords=False)
+    return restart_same(norm, mo[which])
+
+
+def agree(case, impl_obs, model_obs):
+    if case["kind"] in RESTART_KINDS:
+        return _restart_compare(case, impl_obs, model_obs, "spec")
+    return _plain_agree(case, impl_obs, model_obs)
+
+
+def _restart_mo(case, mo):
+    if case["kind"] == "restart_real":
+        return _REAL_CACHE.get(("last", _case_key(case)))
+    return mo
+
+
+def nontrivial(case, mo):
+    if case["kind"] in RESTART_KINDS:
+        mo = _restart_mo(case, mo)
+        if mo is None:
+            return False
+        for t in mo["spec"]:
+            if t["cuts"] and any(e[0] == 0 and e[1] >= t["cuts"][0] for e in t["events"]):
+                return True
+        return False
+    return _plain_nontrivial(case, mo)
+
+
+CRIT_NAMES = {0: "len(_data) - _last_size > %d", 1: "_programs %% %d == 0", 2: "len(_data) >= %d"}
+
+
+def describe(case, mo):
+    if case["kind"] in RESTART_KINDS:
+        d = case["data"]
+        kind, use_cache, skip, request, crit, prior = d[:6]
+        out = {"kind": case["kind"], "solver": "restart." + ["naive", "cutoff"][kind], "use_cache": bool(use_cache),
+               "skip": [S.EXC_BY_ID[i].__name__ for i in skip], "restart_criterion": CRIT_NAMES[crit[0]] % crit[1],
+               "tasks": []}
+        mo = _restart_mo(case, mo)
+        if case["kind"] == "restart":
+            tasks = d[6]
+        else:
+            out["primitives"] = [S.prim_name(n) for n in d[6]]
+            out["depth"] = d[7]
+            out["generator_caps"] = d[8]
+            tasks = [[d[9][0], mo["streams"] if mo else [], d[9][1]]]
+        for ti, (examples, streams, answers) in enumerate(tasks[:2]):
+            item = {"examples": ["%r -> %r" % ([S.value_from_wire(v) for v in i], S.value_from_wire(o))
+                                 for i, o in examples],
+                    "enumerations": [[P.show_prog(p) for p in st[:8]] for st in streams[:5]],
+                    "script": [ANSWER_NAMES[a] for a in answers]}
+            if mo and ti < len(mo["spec"]):
+                m = mo["spec"][ti]
+                item.update({"expected_events": [show_event(e) for e in m["events"]],
+                             "expected_programs_stat": m["programs"], "expected_restarts_stat": m["restarts"],
+                             "expected_drawn": len(m["drawn"]), "expected_restart_after": m["cuts"]})
+            out["tasks"].append(item)
+        out["n_tasks"] = len(tasks)
+        return out
+    return _plain_describe(case, mo)
+
+
+def shrink(case):
+    if case["kind"] == "restart":
+        yield from shrink_restart(case)
+        return
+    if case["kind"] == "restart_real":
+        d = case["data"]
+        examples, answers = d[9]
+
+        def mk(**kw):
+            nd = list(d)
+            nd[8] = kw.get("caps", d[8])
+            nd[9] = [kw.get("examples", examples), kw.get("answers", answers)]
+            nd[6] = kw.get("prims", d[6])
+            return {"kind": "restart_real", "data": nd}
+        if len(answers) > 1:
+            yield mk(answers=answers[:-1])
+        for i in range(len(examples)):
+            if len(examples) > 1:
+                yield mk(examples=examples[:i] + examples[i + 1:])
+        for i, c in enumerate(d[8]):
+            if c > 3:
+                yield mk(caps=d[8][:i] + [max(3, c // 2)] + d[8][i + 1:])
+        return
+    yield from _plain_shrink(case)
+
+
+_SHRUNK = [0]
+
+
+def should_shrink(case, impl_obs, model_obs):
+    """A broken restart loop disagrees on most restart cases: minimise the first few only."""
+    if case["kind"] in RESTART_KINDS:
+        _SHRUNK[0] += 1
+        return _SHRUNK[0] <= 3
+    return True
+
+
+def shrink_restart(case):
+    kind, use_cache, skip, request, crit, prior, tasks = case["data"]
+
+    def mk(ts):
+        return {"kind": "restart", "data": [kind, use_cache, skip, request, crit, prior, ts]}
+
+    if len(tasks) > 1:
+        for i in range(len(tasks)):
+            yield mk(tasks[:i] + tasks[i + 1:])
+    for ti, (examples, streams, answers) in enumerate(tasks):
+        def rep(t):
+            return mk(tasks[:ti] + [t] + tasks[ti + 1:])
+        if len(streams) > 1:
+            yield rep([examples, streams[:-1], answers])
+        for si, st in enumerate(streams):
+            def reps(new):
+                return rep([examples, streams[:si] + [new] + streams[si + 1:], answers])
+            n = len(st)
+            if n > 1:
+                yield reps(st[:n // 2])
+                yield reps(st[n // 2:])
+            if 0 < n <= 6:
+                for i in range(n):
+                    yield reps(st[:i] + st[i + 1:])
+        if len(answers) > 1:
+            yield rep([examples, streams, answers[:-1]])
+        for i in range(len(examples)):
+            yield rep([examples[:i] + examples[i + 1:], streams, answers])
+
+
+def classify(case, impl_obs, model_obs):
+    if case["kind"] in RESTART_KINDS:
+        # the loop before repair C10b-1: RuntimeError when an enumeration is exhausted.  Recognised only when
+        # the implementation does exactly what the model of that loop does (and that differs from the repaired one)
+        if _restart_compare(case, impl_obs, model_obs, "pinned") and \
+                not _restart_compare(case, impl_obs, model_obs, "spec"):
+            return FINDING_RESTART
+        return None
+    return _plain_classify(case, impl_obs, model_obs)
+
+
+def theorem_for(case):
+    if case["kind"] in RESTART_KINDS:
+        return ("C10_restart_yields / C10_restart_equals_plain (the events are the protocol of the plain solvers over "
+                "the effective stream), C10_restart_effective + C10_restart_pieces_are_prefixes (the effective stream "
+                "is the concatenation of the consumed prefixes of the successive enumerations, none skipped), "
+                "C10_restart_stats / C10_restart_complete / C10_restart_drawn_tested (statistics = rank, restarts = "
+                "firings of the criterion, every drawn program tested once)")
+    return _plain_theorem_for(case)
+
+
+def _plain_to_model(case):
     kind, use_cache, skip, request, tasks = case["data"]
     return (1, [kind, skip, tasks])
 
 
-def model_obs(case, raw):
+def _plain_model_obs(case, raw):
     return {"spec": raw[0], "pinned": raw[1]}
 
 
-def agree(case, impl_obs, model_obs):
+def _plain_agree(case, impl_obs, model_obs):
     return impl_obs == model_obs["spec"]
 
 
-def nontrivial(case, mo):
+def _plain_nontrivial(case, mo):
     kind, use_cache, skip, request, tasks = case["data"]
     deep = False
     rejected = False
@@ -202,7 +615,7 @@ def show_event(e):
     return "raises %s" % (S.EXC_BY_ID[e[1]].__name__ if len(e) == 2 and e[1] in S.EXC_BY_ID else e[1:])
 
 
-def describe(case, mo):
+def _plain_describe(case, mo):
     kind, use_cache, skip, request, tasks = case["data"]
     out = {"kind": case["kind"], "solver": ["naive", "cutoff"][kind], "use_cache": bool(use_cache),
            "skip": [S.EXC_BY_ID[i].__name__ for i in skip], "tasks": []}
@@ -216,7 +629,7 @@ def describe(case, mo):
     return out
 
 
-def shrink(case):
+def _plain_shrink(case):
     if case["kind"] == "zero":
         return
     kind, use_cache, skip, request, tasks = case["data"]
@@ -252,7 +665,7 @@ def shrink(case):
                             yield rep([examples, progs[:i] + [a] + progs[i + 1:], answers])
 
 
-def classify(case, impl_obs, model_obs):
+def _plain_classify(case, impl_obs, model_obs):
     """The naive solver divides by the number of examples: on a task without
     examples ZeroDivisionError escapes at the first program.  Recognised only
     when the implementation does exactly what the model of that code does."""
@@ -264,7 +677,7 @@ def classify(case, impl_obs, model_obs):
     return None
 
 
-def theorem_for(case):
+def _plain_theorem_for(case):
     return ("C10_tasks / C10_yields (run_tasks = spec_tasks: per task the events are those of the protocol over the "
             "programs passing every example, in order, cut after the first accepted one) with C10_stats for the "
             "statistic and C10_raise for an escaping exception")
